@@ -8,7 +8,7 @@ use crate::stack::{Pre, Spec};
 use crate::types::*;
 
 pub const NAME_POOL: &[&str] = &[
-    "a", "ab", "a.b", "a.", "b.txt", ".h", "...", "..a", "ü", "日本", "€x", "A", "a b", "x", "c", "d1", "Ab", "b", "..\\outside.txt", "a\\b", "b_wo.c", ".whiteouts",
+    "a", "ab", "a.b", "a.", "b.txt", ".h", "...", "..a", "ü", "日本", "€x", "A", "a b", "x", "c", "d1", "Ab", "b", "..\\outside.txt", "a\\b", "b_wo.c", ".whiteouts", "r\u{FFFD}x",
     // a long component (230 bytes): derived names (suffixes like _copy, the overlay's _wo markers)
     // still fit into the 255 bytes most filesystems allow; C02 adds an exactly 255-byte name
     "LLLLLLLLLLLLLLLLLLLLLLLLLLLLLLLLLLLLLLLLLLLLLLLLLLLLLLLLLLLLLLLLLLLLLLLLLLLLLLLLLLLLLLLLLLLLLLLLLLLLLLLLLLLLLLLLLLLLLLLLLLLLLLLLLLLLLLLLLLLLLLLLLLLLLLLLLLLLLLLLLLLLLLLLLLLLLLLLLLLLLLLLLLLLLLLLLLLLLLLLLLLLLLLLLLLLLLLLLLLLLLLLLL.ext",
